@@ -1,6 +1,6 @@
 """C05 — existing bitstreams keep decoding to the same geometry, in the same order.
   1. TLC MC_Codec: version predicate and gate table (NothingNewer, CurrentAccepted, Monotone, GatesInRange) over all (type, major, minor).
-  2. drv_c05 check: every stream of the frozen corpus /verif/corpus (330 streams frozen once from the encoder + the 25 legacy files of
+  2. drv_c05 check: every stream of /verif/corpus_big (69 size-covering streams: int32 clouds with alphabets of 2^1..2^17 symbols, grid meshes) and every stream of the frozen corpus /verif/corpus (330 streams frozen once from the encoder + the 25 legacy files of
      testdata, versions 1.1, 1.2, 2.0, 2.1, 2.2, 2.3) is decoded; drv_c05 versions: header rewrites to every (major, minor) in 0..3 x 0..5.
   3. TLC Trace_Corpus: FrozenOK (same ordered digest, same counts) and VersionVerdictOK on every record.
   The corpus is never written by a check.
@@ -19,7 +19,8 @@ def check(v, tier, seed):
     if r["violated"]:
         raise vlib.Infra("MC_Codec violated %s: the specification's own version table is inconsistent" % r["violated"])
     obs = os.path.join(wd, "obs.ndjson")
-    rc, out = vlib.run("(%s check %s && %s versions %s) > %s" % (exe, corpus, exe, corpus, obs), timeout=3000)
+    big = os.path.join(vlib.ROOT, "corpus_big")     # size-covering streams (large alphabets: every rANS precision class), frozen once
+    rc, out = vlib.run("(%s check %s && %s check %s && %s versions %s) > %s" % (exe, corpus, exe, big, exe, corpus, obs), timeout=3000)
     if rc != 0:
         v.violation({"what": "decoder crashed on a frozen stream or a version rewrite", "rc": rc, "output": out[-1500:]}, tags={"kind": "crash"})
         return v.finish("model_checking")
